@@ -1098,3 +1098,5 @@ class FileParser(object):
         string_text = Word(textchars)
 
         self.line_parse_token = (OneOrMore((nan | num_float | mixed_exp | num_int | string_text)))
+        # keep tabs: they are data unless they are in the delimiter set
+        self.line_parse_token.parseWithTabs()
